@@ -360,6 +360,57 @@ fn c14_known_not_between_null_bound() {
     assert!(!f);
 }
 
+//@ props=C14 kind=proof
+/// the equality / ordering kernels behind IN and BETWEEN: value_cmp is None iff an operand is NULL and
+/// otherwise the exact Int order / IEEE order with the documented Int -> f64 coercion; values_equal on
+/// Int/Int is exact equality and a NULL never equals a non-NULL value
+#[kani::proof]
+#[kani::stub(eyre::capture_handler, vs::capture_handler)]
+#[kani::stub(eyre::private::new_adhoc, vs::new_adhoc)]
+#[kani::stub(eyre::private::format_err, vs::format_err)]
+#[kani::stub(alloc::fmt::format, vs::format)]
+#[kani::unwind(2)]
+fn c14_value_cmp_and_int_equality() {
+    let p = pred();
+    let (l, r) = (any_scalar(), any_scalar());
+    let got = p.value_cmp(&l, &r);
+    let want = match (&l, &r) {
+        (Value::Null, _) | (_, Value::Null) => None,
+        (Value::Int(a), Value::Int(b)) => Some(a.cmp(b)),
+        (Value::Int(a), Value::Float(b)) => (*a as f64).partial_cmp(b),
+        (Value::Float(a), Value::Int(b)) => a.partial_cmp(&(*b as f64)),
+        (Value::Float(a), Value::Float(b)) => a.partial_cmp(b),
+        _ => None,
+    };
+    assert!(got == want);
+    let (i, j): (i64, i64) = (kani::any(), kani::any());
+    assert!(p.values_equal(&Value::Int(i), &Value::Int(j)) == (i == j));
+    assert!(!p.values_equal(&Value::Null, &Value::Int(i)) && !p.values_equal(&Value::Int(i), &Value::Null));
+    core::mem::forget(p);
+}
+
+//@ props=C14 kind=proof
+/// IN-list / CASE equality on numbers is SQL `=`: exact on floats and with the same Int -> f64 coercion as
+/// the comparison operators (fixed defect F-C14-6: it used |x - y| < f64::EPSILON, so `1e-17 IN (0.0)` was
+/// TRUE while `1e-17 = 0.0` was FALSE)
+#[kani::proof]
+#[kani::stub(eyre::capture_handler, vs::capture_handler)]
+#[kani::stub(eyre::private::new_adhoc, vs::new_adhoc)]
+#[kani::stub(eyre::private::format_err, vs::format_err)]
+#[kani::stub(alloc::fmt::format, vs::format)]
+#[kani::unwind(2)]
+fn c14_in_list_numeric_equality_is_exact() {
+    let p = pred();
+    let (x, y): (f64, f64) = (kani::any(), kani::any());
+    let i: i64 = kani::any();
+    assert!(p.values_equal(&Value::Float(x), &Value::Float(y)) == (x == y));
+    assert!(p.values_equal(&Value::Int(i), &Value::Float(y)) == ((i as f64) == y));
+    assert!(p.values_equal(&Value::Float(x), &Value::Int(i)) == (x == (i as f64)));
+    kani::cover!(x == y);
+    kani::cover!((x != y) & (x == 0.0) & (y > 0.0) & (y < f64::EPSILON));
+    core::mem::forget(p);
+}
+
 // ------------------------------------------------------------------------------------------------
 // C20: integer arithmetic
 // ------------------------------------------------------------------------------------------------
